@@ -475,7 +475,9 @@ def overload_table(ck, L, rule='R13.8'):
     ck.analysed(fm['path'])
     bs = H.binding_sites(g)
     # count = number of consecutive entries with this name, from the partition point
-    cnt = next((b for b in bs.values() if b['kind'] == 'let' and b['bind'].get('name') == 'count'), None)
+    cnt = next((b for b in bs.values() if b['kind'] == 'let' and b['pat'].get('k') == 'Bind' and b['node'].get('init') is not None and
+                H.strip_refs(b['node']['init']).get('k') == 'MCall' and H.strip_refs(b['node']['init']).get('m') == 'count' and
+                any(c.get('m') == 'take_while' for c in H.calls_in(b['node']['init']))), None)
     m = next((n for n in walk(g['body']) if n.get('k') == 'Match' and cnt is not None and (H.root_local(n['e']) or {}).get('hid') == cnt['bind']['hid'] and H.strip_refs(n['e']).get('k') == 'Path'), None)
     ok = False
     if cnt is not None:
@@ -505,7 +507,15 @@ def overload_table(ck, L, rule='R13.8'):
                 chain.append(x.get('m'))
                 x = H.strip_refs(x['recv'])
             rng = pp(x, maxlen=80)
-            whole = x.get('k') == 'Index' and 'start' in rng and 'count' in rng
+            cname = (cnt['bind'].get('name') if cnt else None) or 'count'
+            # the slice is exactly methods[start..start + count]
+            whole = False
+            if x.get('k') == 'Index' and cnt is not None:
+                ri = H.strip_refs(x.get('i', {}))
+                fl = {f_['f']: H.strip_refs(f_['e']) for f_ in ri.get('fields', [])} if ri.get('k') == 'Struct' else {}
+                st_, en_ = fl.get('start'), fl.get('end')
+                whole = st_ is not None and en_ is not None and st_.get('k') == 'Path' and en_.get('k') == 'Binary' and en_.get('op') == 'Add' and \
+                    {H.strip_refs(en_['l']).get('hid'), H.strip_refs(en_['r']).get('hid')} == {st_.get('hid'), cnt['bind']['hid']} and 'RangeInclusive' not in (ri.get('def') or '')
             okc = as_map_fn and list(reversed(chain)) == ['iter', 'map', 'collect'] and whole and arm is not None and arm['pat'].get('k') in ('Wild', 'Bind') and 'guard' not in arm
             ck.ob(rule, 'overloaded-holds-every-entry-or-fails', okc, L.loc(c),
                   'Overloaded = methods[start..start + count].iter().map(Method::new).collect::<Result<Vec<_>, _>>(): all entries or the first error' if okc else
